@@ -230,13 +230,71 @@ func runC16(c *Ctx) {
 		case 1, 2:
 			rg := f.RowGroups()[r.Intn(len(f.RowGroups()))]
 			rr := rg.Rows()
+			// mode 2 also reads through the RowReader wrappers: what they return must be the
+			// right rows at return time (a wrapper that calls its source twice per call hands
+			// out rows of the first call after the source has moved on)
+			var rd parquet.RowReader = rr
+			var expected []parquet.Row
+			wrapper := "Rows"
+			if mode == 2 {
+				all, err := rowGroupRows(rg, 64)
+				if err != nil {
+					c.Fail("c16.read_error", keys, "clean pass: %v", err)
+					return
+				}
+				expected = all
+				switch r.Intn(6) {
+				case 1:
+					wrapper = "FilterRowReader"
+					i := 0
+					rd = parquet.FilterRowReader(rr, func(parquet.Row) bool { i++; return i%3 != 0 })
+					expected = nil
+					for j, row := range all {
+						if (j+1)%3 != 0 {
+							expected = append(expected, row)
+						}
+					}
+				case 2:
+					wrapper = "TransformRowReader"
+					// identity transform (skipping rows is not used: the reader emits an empty row for a
+					// skipped one, which is outside C16; DESIGN O6)
+					rd = parquet.TransformRowReader(rr, func(dst, src parquet.Row) (parquet.Row, error) {
+						return append(dst, src...), nil
+					})
+				case 3:
+					wrapper = "ScanRowReader"
+					limit := int64(r.Intn(len(all) + 1))
+					rd = parquet.ScanRowReader(rr, func(_ parquet.Row, idx int64) bool { return idx < limit })
+					expected = all[:limit]
+				case 4:
+					wrapper = "DedupeRowReader"
+					rd = parquet.DedupeRowReader(rr, func(a, b parquet.Row) int { return 1 })
+				case 5:
+					wrapper = "MergeRowReaders"
+					rd = parquet.MergeRowReaders([]parquet.RowReader{rr}, func(a, b parquet.Row) int { return 0 })
+				}
+				c.D("reader", wrapper)
+				c.Obs("reader_"+wrapper, 1)
+			}
+			pos := 0
 			var held []parquet.Row
 			var snap [][]model.LV
 			buf := make([]parquet.Row, gen.Pick(r, []int{1, 16, 64, 200}))
 			steps := r.Range(3, 10)
 			closed := false
 			for s := 0; s < steps && !closed; s++ {
-				k, err := rr.ReadRows(buf)
+				k, err := rd.ReadRows(buf)
+				if mode == 2 && k > 0 {
+					if pos+k > len(expected) {
+						c.Fail("c16.value_wrong_when_returned", map[string]any{"mode": "uncloned_rows", "reader": wrapper}, "%s returned %d rows at position %d, only %d expected in all", wrapper, k, pos, len(expected))
+						return
+					}
+					if ok, diff := rowsMatchSnapshot(buf[:k], snapshotRows(expected[pos:pos+k])); !ok {
+						c.Fail("c16.value_wrong_when_returned", map[string]any{"mode": "uncloned_rows", "reader": wrapper}, "rows returned by %s.ReadRows (position %d, %d rows) are not the rows of the file: %s", wrapper, pos, k, diff)
+						return
+					}
+					pos += k
+				}
 				if mode == 1 {
 					for _, row := range buf[:k] {
 						cl := row.Clone()
@@ -356,6 +414,31 @@ func c16Writer(c *Ctx, r *gen.Rand, te *typeEntry, rows reflect.Value, opts []pa
 			if ok, diff := rowsMatchSnapshot(prows, psnap); !ok {
 				c.Fail("c16.writer_modified_input", map[string]any{"api": api}, "%s modified the []Row passed by the caller: %s", api, diff)
 				return
+			}
+			// the RowWriter wrappers, each followed by a second call (their scratch state outlives a call)
+			keep := r.Intn(3)
+			wrappers := []struct {
+				name string
+				w    parquet.RowWriter
+			}{
+				{"FilterRowWriter", parquet.FilterRowWriter(parquet.NewBuffer(schema), func(row parquet.Row) bool { return keep == 0 || len(row) == 0 || row[0].Column()%2 == 0 || int(row[len(row)-1].Int64())%(keep+1) == 0 })},
+				{"TransformRowWriter", parquet.TransformRowWriter(parquet.NewBuffer(schema), func(dst, src parquet.Row) (parquet.Row, error) { return append(dst, src...), nil })},
+				{"MultiRowWriter", parquet.MultiRowWriter(parquet.NewBuffer(schema), parquet.NewBuffer(schema))},
+				{"RowBuffer.WriteRows", te.ops.NewRowBuffer()},
+			}
+			for _, wr := range wrappers {
+				half := len(prows) / 2
+				wr.w.WriteRows(prows[:half])
+				wr.w.WriteRows(prows[half:])
+				if rb, ok := wr.w.(interface{ Reset() }); ok {
+					rb.Reset()
+					wr.w.WriteRows(prows[:half])
+				}
+				if ok, diff := rowsMatchSnapshot(prows, psnap); !ok {
+					c.Fail("c16.writer_modified_input", map[string]any{"api": wr.name}, "%s modified the []Row passed by the caller: %s", wr.name, diff)
+					return
+				}
+				c.Obs("row_writer_wrappers_checked", 1)
 			}
 		}
 		c.D("api", api)
